@@ -11,11 +11,11 @@ sys.path.insert(0, VERIF)
 TECH = {
     "C01": ("2.C01", "Hypothesis-generated operation histories against one real Market; validity predicates over the returned fills and a reference price rule"),
     "C02": ("2.C02", "Hypothesis histories + reference priority ranking after every op; exhaustive enumeration of a finite order domain; float triples; arrival-permutation metamorphic relation"),
-    "C03": ("2.C03", "Hypothesis histories (batch-mode biased, market orders both sides); post-state predicate + differential against a reference greedy walk"),
-    "C04": ("2.C04", "Hypothesis histories with illegal operations; per-order accounting model and lifetime model compared after every op; constructor input search; whole-simulation refusal cases"),
-    "C05": ("2.C05", "Hypothesis-generated simulation configurations with scripted agent programs; fold of fills over endowments compared at every observation point"),
+    "C03": ("2.C03", "Hypothesis histories (batch-mode biased, market orders both sides); post-state predicate + differential against a reference greedy walk; whole simulations (session lists, halt rules) with crash attribution and a round-follows-acceptance oracle"),
+    "C04": ("2.C04", "Hypothesis histories with illegal operations; per-order accounting model and lifetime model compared after every op; constructor input search; whole-simulation refusal cases (incl. re-submission exactly where an event rewrites pending orders); clock jumps, cancels by equal copy, pre-stamped cancels"),
+    "C05": ("2.C05", "Hypothesis-generated simulation configurations with scripted agent programs; fold of fills over endowments compared at every observation point; sample configurations with a non-retaining ledger logger audited at every session end"),
     "C06": ("2.C06", "Hypothesis-generated session lists crossing the 100-step chunks; per-step probes of every getter (future refused, past immutable)"),
-    "C07": ("2.C07", "differential re-execution of Hypothesis-generated (configuration, seed) under different PYTHONHASHSEED / global RNG state / process history; digest equality"),
+    "C07": ("2.C07", "differential re-execution of Hypothesis-generated (configuration, seed) under different PYTHONHASHSEED / global RNG state / process history / python -O / member order of the settings objects; digest equality"),
     "C08": ("2.C08", "Hypothesis histories; reference price/quote/statistics state machine driven by the actual fills, compared after every op"),
     "C09": ("2.C09", "Hypothesis-generated session rules, agent populations and events; trace invariants over consultations, acceptances and fills"),
     "C10": ("2.C10", "Hypothesis-generated simulations with a recording Logger; multiset/order comparison of records against ground truth kept by scripted agents and market getters"),
@@ -25,9 +25,9 @@ TECH = {
     "C14": ("2.C14", "Hypothesis-generated shock placements; closed-form fundamental path at zero volatility, before/after reads otherwise; order-replacement oracle"),
     "C15": ("2.C15", "Hypothesis-generated order prices around the band; clip-then-tick-round oracle with p0 read in a probe hook"),
     "C16": ("2.C16", "Hypothesis-generated price walks against a per-round halt timer model; invariant 'no fill while not running'"),
-    "C17": ("2.C17", "Hypothesis-generated component sets with unequal shares; fsum reference of the weighted averages at every time"),
-    "C18": ("2.C18", "Hypothesis-generated inheritance graphs / group declarations / distribution specs / class names / legacy keys against reference resolvers and support checks"),
-    "C19": ("2.C19", "Hypothesis-generated (tick, price, side) inputs; exact rational-arithmetic rounding oracle"),
+    "C17": ("2.C17", "Hypothesis-generated component sets with unequal shares; fsum reference of the weighted averages at every time (explicit in-step queries, index of indices, user-defined component classes, late registrations, share changes)"),
+    "C18": ("2.C18", "Hypothesis-generated inheritance graphs / group declarations / distribution specs / class names / legacy keys against reference resolvers and support checks; user-registered classes and randomised agent parameters through the runner / the shipped agents"),
+    "C19": ("2.C19", "Hypothesis-generated (tick, price, side) inputs; exact rational-arithmetic rounding oracle, also applied to the prices events hand to the market and to index markets"),
     "C20": ("2.C20", "Hypothesis-generated agent parameters x constructed market states; independently evaluated strategy formulas"),
 }
 
